@@ -52,6 +52,7 @@ type vfNetSim struct {
 	stats  map[string]int64
 	closed bool
 	links  map[string]chan vfFifoItem
+	done   chan struct{} // closed by Stop
 	// filter, if set, may rewrite or swallow an outgoing datagram before the fate is drawn
 	// (return nil to swallow). from/to are "ip:port" strings.
 	filter func(from, to string, p []byte) []byte
@@ -62,7 +63,7 @@ func vfNewNetSim(seed uint64, cfg vfNetCfg) (*vfNetSim, error) {
 	if err != nil {
 		return nil, err
 	}
-	return &vfNetSim{seed: seed, cfg: cfg, start: time.Now(), router: r, ctr: map[string]uint64{}, stats: map[string]int64{}}, nil
+	return &vfNetSim{seed: seed, cfg: cfg, start: time.Now(), router: r, ctr: map[string]uint64{}, stats: map[string]int64{}, done: make(chan struct{})}, nil
 }
 
 // addHost returns a transport.Net for a host with the given static IPs.
@@ -81,6 +82,9 @@ func (n *vfNetSim) Start() error { n.start = time.Now(); return n.router.Start()
 
 func (n *vfNetSim) Stop() {
 	n.mu.Lock()
+	if !n.closed {
+		close(n.done)
+	}
 	n.closed = true
 	for _, ch := range n.links {
 		close(ch)
@@ -115,10 +119,18 @@ func (n *vfNetSim) fifo(link string, at time.Time, f func()) {
 	if ch == nil {
 		ch = make(chan vfFifoItem, 4096)
 		n.links[link] = ch
+		done := n.done
 		go func() {
 			for it := range ch {
 				if d := time.Until(it.at); d > 0 {
-					time.Sleep(d)
+					// (not time.Sleep: a link goroutine asleep when the run ends would stay in the finished bubble for good)
+					t := time.NewTimer(d)
+					select {
+					case <-t.C:
+					case <-done:
+						t.Stop()
+						return
+					}
 				}
 				it.f()
 			}
